@@ -8,7 +8,7 @@ namespace BbRe.Lemmas.Outputs
 open BbRe.Outputs
 
 /-- The CAS never fails. -/
-def noFaults : Env := ⟨fun _ => false⟩
+def noFaults : Env := { putFails := fun _ => false }
 
 def LClean (env : Env) (n : Node) : Prop :=
   cleanDir env n = true → ∀ st, n.uploadDirectory env st = n.uploadDirectory noFaults st
@@ -29,9 +29,9 @@ theorem uploadEntries_clean (env : Env) (es : Entries) (h : ∀ p ∈ es, LClean
       simp only [uploadEntries, hc.1, noFaults, Bool.false_eq_true, ↓reduceIte]
       exact ihr hc.2 _ _
     | symlink t =>
-      simp only [cleanEntries] at hc
-      simp only [uploadEntries]
-      exact ihr hc _ _
+      simp only [cleanEntries, Bool.and_eq_true, Bool.not_eq_eq_eq_not, Bool.not_true] at hc
+      simp only [uploadEntries, hc.1, noFaults, Bool.false_eq_true, ↓reduceIte]
+      exact ihr hc.2 _ _
     | special =>
       simp only [cleanEntries] at hc
       simp only [uploadEntries]
@@ -82,7 +82,9 @@ theorem noFaults_clean_of_clean (env : Env) : ∀ n, cleanDir env n = true → c
       | file x c =>
         simp only [cleanEntries, Bool.and_eq_true] at hce ⊢
         exact ⟨by simp [noFaults], ihr hce.2⟩
-      | symlink t => simp only [cleanEntries] at hce ⊢; exact ihr hce
+      | symlink t =>
+        simp only [cleanEntries, Bool.and_eq_true] at hce ⊢
+        exact ⟨by simp [noFaults], ihr hce.2⟩
       | special => simp only [cleanEntries] at hce ⊢; exact ihr hce
       | dir r' ces =>
         simp only [cleanEntries, Bool.and_eq_true] at hce ⊢
@@ -143,7 +145,12 @@ theorem atLoc_clean_eq (env : Env) (up : Bool) (s : Str) (found : Option Node)
       · simp at h
       · rename_i hput
         simp [hput, noFaults]
-    | symlink t => rfl
+    | symlink t =>
+      simp only [atLoc] at h ⊢
+      split at h
+      · simp at h
+      · rename_i hrl
+        simp [hrl, noFaults]
     | special => rfl
 
 end BbRe.Lemmas.Outputs
